@@ -97,7 +97,10 @@ def run(pid, tier, seed, replay, t0):
     ok, log = core.lake_build(["VrpModel", "vrpdriver"])
     if not ok:
         raise Infra("model/driver does not build:\n" + log[-3000:])
-    ok, log = core.lake_build([f"VrpProofs.Props.{pid}"])
+    mods = [f"VrpProofs.Props.{m.stem}" for m in core.prop_modules(pid)]
+    if not mods:
+        raise Infra(f"no theorem module for {pid}")
+    ok, log = core.lake_build(mods)
     if not ok:
         proof_broken = "theorem module VrpProofs.Props.%s does not compile: %s" % (pid, log[-1500:])
 
@@ -116,7 +119,7 @@ def run(pid, tier, seed, replay, t0):
                 raise Infra(f"theorem {n} depends on unexpected axioms {bad}")
             theorems.append(dict(name=n, axioms=axioms[n]))
         if tier == "thorough":
-            p = core._run(["lake", "env", "leanchecker", f"VrpProofs.Props.{pid}"], core.LEAN)
+            p = core._run(["lake", "env", "leanchecker"] + mods, core.LEAN)
             if p.returncode != 0:
                 raise Infra("leanchecker rejected the compiled theorem module: " + p.stdout[-1500:])
 
